@@ -27,6 +27,7 @@ import (
 	"github.com/B1NARY-GR0UP/originium/pkg/filter"
 	"github.com/B1NARY-GR0UP/originium/pkg/kway"
 	"github.com/B1NARY-GR0UP/originium/pkg/logger"
+	"github.com/B1NARY-GR0UP/originium/pkg/vhook"
 	"github.com/B1NARY-GR0UP/originium/table"
 	"github.com/B1NARY-GR0UP/originium/types"
 	"github.com/B1NARY-GR0UP/originium/utils"
@@ -87,9 +88,11 @@ func (lm *levelManager) recover() int64 {
 		}
 		// leftover of a sstable write interrupted by a crash
 		if !file.IsDir() && path.Ext(file.Name()) == _tmpSuffix {
+			vhook.FS("remove", path.Join(lm.dir, file.Name()), 0)
 			if err = os.Remove(path.Join(lm.dir, file.Name())); err != nil {
 				lm.logger.Panicf("failed to remove %s: %v", file.Name(), err)
 			}
+			vhook.FSDone("remove", path.Join(lm.dir, file.Name()), 0)
 		}
 	}
 
@@ -289,6 +292,7 @@ func (lm *levelManager) flushToL0(kvs []types.Entry) error {
 	// l0 list
 	lm.levels[0].PushBack(th)
 
+	vhook.Event("table.flush", lm.fileName(0, th.levelIdx), len(kvs))
 	// file name format: level-idx.db
 	return lm.writeTable(lm.fileName(0, th.levelIdx), tableBytes)
 }
@@ -297,28 +301,38 @@ func (lm *levelManager) flushToL0(kvs []types.Entry) error {
 // the file shows up under its name only after it is complete and synced
 func (lm *levelManager) writeTable(name string, tableBytes []byte) error {
 	tmp := name + _tmpSuffix
+	vhook.FS("create", tmp, 0)
 	fd, err := os.OpenFile(tmp, os.O_CREATE|os.O_RDWR|os.O_TRUNC, 0600)
+	vhook.FSDone("create", tmp, 0)
 	if err != nil {
 		return err
 	}
 
 	// write sstable
+	vhook.FS("write", tmp, len(tableBytes))
 	if _, err = fd.Write(tableBytes); err != nil {
+		vhook.FSDone("write", tmp, len(tableBytes))
 		_ = fd.Close()
 		return err
 	}
+	vhook.FSDone("write", tmp, len(tableBytes))
 
 	// os sync
+	vhook.FS("sync", tmp, 0)
 	if err = fd.Sync(); err != nil {
+		vhook.FSDone("sync", tmp, 0)
 		lm.logger.Errorf("failed to sync file: %v", err)
 		_ = fd.Close()
 		return err
 	}
+	vhook.FSDone("sync", tmp, 0)
 
 	if err = fd.Close(); err != nil {
 		return err
 	}
 
+	vhook.FS("rename", name, 0)
+	defer vhook.FSDone("rename", name, 0)
 	return os.Rename(tmp, name)
 }
 
@@ -446,6 +460,7 @@ func (lm *levelManager) compactL0() {
 		lm.levels[1].Remove(e)
 	}
 
+	vhook.Event("table.compact", lm.fileName(1, th.levelIdx), lm.verifNames(0, l0Tables, 1, l1Tables))
 	// write new sstable before the old ones are deleted
 	if err := lm.writeTable(lm.fileName(1, th.levelIdx), tableBytes); err != nil {
 		lm.logger.Panicf("failed to write sstable: %v", err)
@@ -453,15 +468,19 @@ func (lm *levelManager) compactL0() {
 
 	// delete old sstables from L0
 	for _, e := range l0Tables {
+		vhook.FS("remove", lm.fileName(0, e.Value.(tableHandle).levelIdx), 0)
 		if err := os.Remove(lm.fileName(0, e.Value.(tableHandle).levelIdx)); err != nil {
 			lm.logger.Panicf("failed to delete old sstable: %v", err)
 		}
+		vhook.FSDone("remove", lm.fileName(0, e.Value.(tableHandle).levelIdx), 0)
 	}
 	// delete old sstables from L1
 	for _, e := range l1Tables {
+		vhook.FS("remove", lm.fileName(1, e.Value.(tableHandle).levelIdx), 0)
 		if err := os.Remove(lm.fileName(1, e.Value.(tableHandle).levelIdx)); err != nil {
 			lm.logger.Panicf("failed to delete old sstable: %v", err)
 		}
+		vhook.FSDone("remove", lm.fileName(1, e.Value.(tableHandle).levelIdx), 0)
 	}
 }
 
@@ -520,26 +539,32 @@ func (lm *levelManager) compactLN(n int) {
 		lm.levels[n+1].Remove(e)
 	}
 
+	vhook.Event("table.compact", lm.fileName(n+1, th.levelIdx), lm.verifNames(n, []*list.Element{lnTable}, n+1, ln1Tables))
 	// write new sstable before the old ones are deleted
 	if err := lm.writeTable(lm.fileName(n+1, th.levelIdx), tableBytes); err != nil {
 		lm.logger.Panicf("failed to write sstable: %v", err)
 	}
 
 	// delete old sstables from LN
+	vhook.FS("remove", lm.fileName(n, lnTable.Value.(tableHandle).levelIdx), 0)
 	if err := os.Remove(lm.fileName(n, lnTable.Value.(tableHandle).levelIdx)); err != nil {
 		lm.logger.Panicf("failed to delete old sstable: %v", err)
 	}
+	vhook.FSDone("remove", lm.fileName(n, lnTable.Value.(tableHandle).levelIdx), 0)
 	// delete old sstables from LN+1
 	for _, e := range ln1Tables {
+		vhook.FS("remove", lm.fileName(n+1, e.Value.(tableHandle).levelIdx), 0)
 		if err := os.Remove(lm.fileName(n+1, e.Value.(tableHandle).levelIdx)); err != nil {
 			lm.logger.Panicf("failed to delete old sstable: %v", err)
 		}
+		vhook.FSDone("remove", lm.fileName(n+1, e.Value.(tableHandle).levelIdx), 0)
 	}
 }
 
 // remove version <= discardAtOrBelow and keep latest version
 func (lm *levelManager) discardStaleEntries(entries []types.Entry) []types.Entry {
 	low := lm.db.oracle.discardAtOrBelow()
+	vhook.Event("discard.low", low)
 	if low == 0 {
 		return entries
 	}
